@@ -21,6 +21,18 @@ def load_expect():
     exec(m.group(0), ns)
     return ns['EXPECT']
 
+def restore_dev_full():
+    """a broken CLI under observation (e.g. one that deletes its output file on a write error) can remove
+    or replace /dev/full on this machine; put the device back so that later runs judge the program"""
+    import stat
+    try:
+        ok = stat.S_ISCHR(os.stat('/dev/full').st_mode)
+    except OSError:
+        ok = False
+    if not ok:
+        subprocess.run('rm -f /dev/full; mknod -m 666 /dev/full c 1 7', shell=True)
+        print('NOTE: /dev/full had been removed or replaced by a program under observation; device node restored', flush=True)
+
 def main():
     args = sys.argv[1:]
     workers = 3
@@ -120,4 +132,7 @@ def main():
         missed = [(n, p) for n, t, res in rows for p, v in res.items() if v[0] != 1]
         print('MUTANTS MISSED:', missed)
         print('MUTANTS FAILING OWN TESTS:', [(n, t) for n, t, res in rows if t != 'pass'])
-main()
+try:
+    main()
+finally:
+    restore_dev_full()
